@@ -71,11 +71,13 @@ d1::task* arena_slot::get_task(execution_data_ext& ed, isolation_type isolation)
         __TBB_ASSERT( !result, nullptr );
         // The full fence is required to sync the store of `tail` with the load of `head` (write-read barrier)
         T = --tail;
+        __TBB_VERIF_POINT(vp_deque_owner_tail_dec, this, T);
         // The acquire load of head is required to guarantee consistency of our task pool
         // when a thief rolls back the head.
         if ( (std::intptr_t)( head.load(std::memory_order_acquire) ) > (std::intptr_t)T ) {
             acquire_task_pool();
             H0 = head.load(std::memory_order_relaxed);
+            __TBB_VERIF_POINT(vp_deque_owner_arbitration, this, (std::intptr_t)H0 > (std::intptr_t)T ? 0 : (H0 == T ? 1 : 2));
             if ( (std::intptr_t)H0 > (std::intptr_t)T ) {
                 // The thief has not backed off - nothing to grab.
                 __TBB_ASSERT( H0 == head.load(std::memory_order_relaxed)
@@ -151,17 +153,20 @@ d1::task* arena_slot::steal_task(arena& a, isolation_type isolation, std::size_t
         return nullptr;
     }
     d1::task* result = nullptr;
+    __TBB_VERIF_POINT(vp_deque_thief_locked, this, 0);
     std::size_t H = head.load(std::memory_order_relaxed); // mirror
     std::size_t H0 = H;
     bool tasks_omitted = false;
     do {
         // The full fence is required to sync the store of `head` with the load of `tail` (write-read barrier)
         H = ++head;
+        __TBB_VERIF_POINT(vp_deque_thief_head_inc, this, H);
         // The acquire load of tail is required to guarantee consistency of victim_pool
         // because the owner synchronizes task spawning via tail.
         if ((std::intptr_t)H > (std::intptr_t)(tail.load(std::memory_order_acquire))) {
             // Stealing attempt failed, deque contents has not been changed by us
             head.store( /*dead: H = */ H0, std::memory_order_relaxed );
+            __TBB_VERIF_POINT(vp_deque_thief_backoff, this, H);
             __TBB_ASSERT( !result, nullptr );
             goto unlock;
         }
@@ -191,6 +196,7 @@ d1::task* arena_slot::steal_task(arena& a, isolation_type isolation, std::size_t
     } while (!result);
     __TBB_ASSERT( result, nullptr );
 
+    __TBB_VERIF_POINT(vp_deque_thief_took, this, tasks_omitted);
     // emit "task was consumed" signal
     poison_pointer( victim_pool[H-1] );
     if (tasks_omitted) {
